@@ -23,6 +23,7 @@ import itertools
 import json
 import os
 import shutil
+import time
 
 import vplib
 from checks.common import verdict
@@ -206,6 +207,42 @@ def known_filter_factory(ctx):
     return known_filter
 
 
+def coq_eval(ctx, exprs, **kw):
+    """vplib.coq_eval on the SignRace model; the .vo files are shared with concurrently running
+    checks of other properties (a rebuild of a common dependency while coqc loads it makes coqc
+    fail), so a failure is retried after re-making this property's cone"""
+    last = None
+    for attempt in range(4):
+        try:
+            return vplib.coq_eval(ctx, "From GPA Require Import SignRace.", exprs, **kw)
+        except RuntimeError as e:
+            last = e
+            ctx.log("model evaluation failed (attempt %d), re-making the cone: %s" % (attempt + 1, str(e)[-300:]))
+            time.sleep(2 + 3 * attempt)
+            vplib.coq_make(ctx, ["Props/C10.vo"])
+    raise last
+
+
+def run_driver(ctx, exe, lines, env, what):
+    """the driver is deterministic; a transient environment failure (port clash with another
+    check's listener, overloaded machine) is retried before it is reported"""
+    last = None
+    for attempt in range(3):
+        try:
+            out = [json.loads(l) for l in vplib.run_lines(exe, lines, env=env, timeout=1200)]
+            if len(out) != len(lines):
+                raise RuntimeError("%s: %d results for %d scenarios" % (what, len(out), len(lines)))
+            bad = [o for o in out if o.get("error") and "proxy listener" in str(o.get("error"))]
+            if bad:
+                raise RuntimeError("%s: %s" % (what, bad[0]["error"]))
+            return out
+        except (RuntimeError, ValueError) as e:
+            last = e
+            ctx.log("%s failed (attempt %d): %s" % (what, attempt + 1, str(e)[-300:]))
+            time.sleep(3)
+    raise last
+
+
 # ----------------------------------------------------------------------------------------
 def run(ctx):
     vplib.gen_consts(ctx)
@@ -220,8 +257,7 @@ def run(ctx):
 
     # ---------------- the model's call-site programs ----------------
     order = ["proxy", "goalstate", "sharedconfig", "imds", "telemetry"]
-    m_reads = vplib.coq_eval(ctx, "From GPA Require Import SignRace.",
-                             ["map (fun r => length (route_reads r)) [%s]" % "; ".join(ROUTES[r] for r in order)], name="reads")[0]
+    m_reads = coq_eval(ctx, ["map (fun r => length (route_reads r)) [%s]" % "; ".join(ROUTES[r] for r in order)], name="reads")[0]
     model_reads = dict(zip(order, m_reads))
 
     # ---------------- hand-polled scenarios ----------------
@@ -262,11 +298,9 @@ def run(ctx):
         scs.append(("random", hand_scenario(routes, pre, sched, keys)))
 
     ctx.log("running %d hand-polled scenarios" % len(scs))
-    out = vplib.run_lines(exe, [json.dumps(s["json"]) for _, s in scs], env=env, timeout=900)
+    impl = run_driver(ctx, exe, [json.dumps(s["json"]) for _, s in scs], env, "hand-polled scenarios")
     ctx.log("hand-polled scenarios done")
-    assert len(out) == len(scs), (len(out), len(scs))
-    impl = [json.loads(l) for l in out]
-    model = vplib.coq_eval(ctx, "From GPA Require Import SignRace.", [model_expr(s) for _, s in scs], shard=60, name="hand")
+    model = coq_eval(ctx, [model_expr(s) for _, s in scs], shard=60, name="hand")
 
     reads_seen = {}
     n_signings = n_headers = n_torn = n_rot_during = 0
@@ -304,7 +338,9 @@ def run(ctx):
                 disagreements.append({"case": {"route": route, "signer": ix, "what": "class predicate setkey_between_reads", "driver_input": sc["json"]},
                                       "model": mflag, "impl": cflag})
             if len(samples) < 3 and len(window) > 1 and o is not None:
-                samples.append({"route": route, "schedule": sc["json"]["schedule"], "impl": {"announced": o[2], "mac_key": o[1], "reads": reads}, "model": {"hdr": mh, "class": mflag}})
+                samples.append({"route": route, "pre": ["set k%s" % x for x in sc["pre"]],
+                                "schedule": ["poll signer %d" % it[1] if it[0] == "p" else ("clear_key" if it[1] is None else "update_key k%d" % it[1]) for it in sc["schedule"]],
+                                "impl": {"announced_key": o[2], "mac_verifies_under_key": o[1], "actor_round_trips": reads}, "model": {"hdr": mh, "class": mflag}})
 
     # ---------------- the proxied route: keeper ops injected at every scheduler turn ----------------
     pkeys = fresh_keys(rng, 3)
@@ -312,7 +348,7 @@ def run(ctx):
     scripts = [([0, 1], [2]), ([0, 1], [None]), ([0, 1], [None, 2]), ([], [2])]
     if not ctx.quick:
         scripts += [([1], [2, 3]), ([1], [2, None])]
-    cal = json.loads(vplib.run_lines(exe, [json.dumps({"kind": "proxy", "pre": [op_json(1, pkeys)], "ops": [], "steps": None})], env=env)[0])
+    cal = run_driver(ctx, exe, [json.dumps({"kind": "proxy", "pre": [op_json(1, pkeys)], "ops": [], "steps": None})], env, "proxied calibration")[0]
     if not cal.get("ok"):
         raise RuntimeError("c10 driver: proxied calibration failed: %s" % cal.get("error"))
     turns = int(cal["turns"])
@@ -322,7 +358,7 @@ def run(ctx):
             plines.append(json.dumps({"kind": "proxy", "pre": [op_json(o, pkeys) for o in pre], "ops": [op_json(o, pkeys) for o in ops], "steps": st}))
             pmeta.append((pre, ops, st))
     ctx.log("proxied route: %d turns calibrated, %d runs" % (turns, len(plines)))
-    pout = [json.loads(l) for l in vplib.run_lines(exe, plines, env=env, timeout=900)]
+    pout = run_driver(ctx, exe, plines, env, "proxied runs")
     ctx.log("proxied runs done")
     # model: every monotone placement of the ops relative to the reads of the proxied program
     R = model_reads["proxy"]
@@ -336,7 +372,7 @@ def run(ctx):
             msc = {"routes": ["proxy"], "pre": pre, "schedule": sched}
             mexprs.append(model_expr(msc))
             mkeys.append(si)
-    mres = vplib.coq_eval(ctx, "From GPA Require Import SignRace.", mexprs, shard=60, name="proxy")
+    mres = coq_eval(ctx, mexprs, shard=60, name="proxy")
     allowed = {}
     for si, mr in zip(mkeys, mres):
         allowed.setdefault(si, set()).add(model_result(mr[0])[0])
